@@ -17,7 +17,9 @@
 From Got Require Import Base.
 Local Open Scope nat_scope.
 
-Inductive cd_variant := CdOrig | CdFixed.
+(* [CdNoRecheck]: the fixed code except that a successful send returns without the second select (what a
+   non-blocking enqueue in front of sendJob's close check amounts to when the channel has room) *)
+Inductive cd_variant := CdOrig | CdFixed | CdNoRecheck.
 
 Inductive cd_sender :=
 | CdsSend (j : nat)      (* in sendJob's first select with job j *)
@@ -61,7 +63,7 @@ Definition cd_step (var : cd_variant) (s : cd_state) (e : cd_ev) : cd_state :=
             end
           else if cd_closed s then
             match var with
-            | CdFixed =>   (* runQueuedJobs(): everything queued at this moment, then return *)
+            | CdFixed | CdNoRecheck =>   (* runQueuedJobs(): everything queued at this moment, then return *)
                 cd_upd s [] true (cd_set (cd_workers s) i CdwGone) (cd_senders s) (cd_ran s ++ cd_chan s)
             | CdOrig => cd_upd s (cd_chan s) true (cd_set (cd_workers s) i CdwGone) (cd_senders s) (cd_ran s)
             end
@@ -74,11 +76,11 @@ Definition cd_step (var : cd_variant) (s : cd_state) (e : cd_ev) : cd_state :=
           if send then
             if length (cd_chan s) <? cd_cap s
             then cd_upd s (cd_chan s ++ [j]) (cd_closed s) (cd_workers s)
-                         (cd_set (cd_senders s) i (match var with CdFixed => CdsRecheck | CdOrig => CdsDone end)) (cd_ran s)
+                         (cd_set (cd_senders s) i (match var with CdFixed => CdsRecheck | CdOrig | CdNoRecheck => CdsDone end)) (cd_ran s)
             else s
           else if cd_closed s then
             match var with
-            | CdFixed => cd_upd s (cd_chan s) true (cd_workers s) (cd_set (cd_senders s) i CdsDone) (cd_ran s ++ [j])
+            | CdFixed | CdNoRecheck => cd_upd s (cd_chan s) true (cd_workers s) (cd_set (cd_senders s) i CdsDone) (cd_ran s ++ [j])
             | CdOrig => cd_upd s (cd_chan s) true (cd_workers s) (cd_set (cd_senders s) i CdsDone) (cd_ran s)
             end
           else s
